@@ -123,3 +123,352 @@ def em_mean_std(kind, sig, ybar):
         s = sig[0]
         return ybar, ybar * np.sqrt(np.exp(s ** 2) - 1)
     raise ValueError(kind)
+
+
+# --------------------------------------------------------------------------
+# population models
+#
+# spec kinds:
+#   {'kind': 'gauss'|'lognorm', 'n_dim': d, 'centered': bool}
+#   {'kind': 'trunc'|'pooled'|'hetero', 'n_dim': d}
+#   {'kind': 'cov', 'base': <elementary>, 'n_cov': c, 'sel': None | [[p, d], ...]}
+#   {'kind': 'comp', 'parts': [...]}
+#   {'kind': 'red', 'base': <any>, 'fixed': [indices into base parameters], 'values': [...]}
+#
+# Flat parameter layout of an elementary model (docstrings): parameter-major,
+# i.e. reshape(n_param_per_dim, n_dim): [p0 d0, p0 d1, ..., p1 d0, ...].
+# Heterogeneous: (n_ids, n_dim) flattened.  Covariate model: base parameters,
+# then beta[s, c] for the selected pairs s (sorted unique by (p, d)), covariate-minor.
+# --------------------------------------------------------------------------
+ELEM = ('gauss', 'lognorm', 'trunc', 'pooled', 'hetero')
+BASE_NAMES = {
+    'gauss': ['Mean', 'Std.'], 'lognorm': ['Log mean', 'Log std.'],
+    'trunc': ['Mu', 'Sigma'], 'pooled': ['Pooled']}
+
+
+def _phi_cdf(z):
+    return 0.5 * (1.0 + special.erf(z / math.sqrt(2.0)))
+
+
+def pop_n_dim(spec):
+    k = spec['kind']
+    if k in ELEM:
+        return spec['n_dim']
+    if k in ('cov', 'red'):
+        return pop_n_dim(spec['base'])
+    return sum(pop_n_dim(p) for p in spec['parts'])
+
+
+def pop_n_cov(spec):
+    k = spec['kind']
+    if k in ELEM:
+        return 0
+    if k == 'cov':
+        return spec['n_cov']
+    if k == 'red':
+        return pop_n_cov(spec['base'])
+    return sum(pop_n_cov(p) for p in spec['parts'])
+
+
+def pop_per_dim(spec, n_ids):
+    k = spec['kind']
+    if k in ('gauss', 'lognorm', 'trunc'):
+        return 2
+    if k == 'pooled':
+        return 1
+    if k == 'hetero':
+        return n_ids
+    raise ValueError(k)
+
+
+def cov_selection(spec, n_ids):
+    """Sorted unique selected (p, d) pairs of a covariate model."""
+    base = spec['base']
+    if spec.get('sel') is None:
+        npd = pop_per_dim(base, n_ids)
+        return [(p, d) for p in range(npd) for d in range(base['n_dim'])]
+    return sorted({(int(p), int(d)) for p, d in spec['sel']})
+
+
+def pop_n_par(spec, n_ids):
+    """Number of (free) population parameters."""
+    k = spec['kind']
+    if k in ELEM:
+        return pop_per_dim(spec, n_ids) * spec['n_dim']
+    if k == 'cov':
+        return pop_n_par(spec['base'], n_ids) + len(cov_selection(spec, n_ids)) * spec['n_cov']
+    if k == 'red':
+        return pop_n_par(spec['base'], n_ids) - len(spec['fixed'])
+    return sum(pop_n_par(p, n_ids) for p in spec['parts'])
+
+
+def pop_special(spec):
+    """Per dimension: 'pooled', 'hetero' or None (dimension has bottom-level entries)."""
+    k = spec['kind']
+    if k in ELEM:
+        return [k if k in ('pooled', 'hetero') else None] * spec['n_dim']
+    if k in ('cov', 'red'):
+        return pop_special(spec['base'])
+    out = []
+    for p in spec['parts']:
+        out += pop_special(p)
+    return out
+
+
+def pop_noncentered(spec):
+    k = spec['kind']
+    if k in ELEM:
+        return [k in ('gauss', 'lognorm') and not spec.get('centered', True)] * spec['n_dim']
+    if k in ('cov', 'red'):
+        return pop_noncentered(spec['base'])
+    out = []
+    for p in spec['parts']:
+        out += pop_noncentered(p)
+    return out
+
+
+def pop_full_theta(spec, theta):
+    """Expand free parameters of reduced wrappers (recursively) -- returns the
+    parameter vector of the spec with every 'red' node replaced by its base."""
+    return theta  # expansion is done node-locally in _walk
+
+
+def _expand_red(spec, theta, n_ids):
+    n_full = pop_n_par(spec['base'], n_ids)
+    full = np.empty(n_full, dtype=complex if np.iscomplexobj(theta) else float)
+    fixed = list(spec['fixed'])
+    free = [j for j in range(n_full) if j not in fixed]
+    for j, v in zip(fixed, spec['values']):
+        full[j] = v
+    for j, v in zip(free, theta):
+        full[j] = v
+    return full
+
+
+def _elem_theta_matrix(spec, theta, n_ids):
+    npd = pop_per_dim(spec, n_ids)
+    return np.asarray(theta).reshape(npd, spec['n_dim'])
+
+
+def _vartheta(spec, theta, n_ids, cov_i):
+    """Covariate model: parameters of the sub-population of one individual."""
+    base = spec['base']
+    n_base = pop_n_par(base, n_ids)
+    P = np.array(_elem_theta_matrix(base, theta[:n_base], n_ids),
+                 dtype=complex if (np.iscomplexobj(theta) or np.iscomplexobj(cov_i)) else float)
+    sel = cov_selection(spec, n_ids)
+    beta = np.asarray(theta[n_base:]).reshape(len(sel), spec['n_cov'])
+    for s, (p, d) in enumerate(sel):
+        for c in range(spec['n_cov']):
+            P[p, d] = P[p, d] + beta[s, c] * cov_i[c]
+    return P
+
+
+def _same(a, b):
+    """Point-mass membership up to rounding of the covariate shift (1e-12 relative)."""
+    a, b = float(np.real(a)), float(np.real(b))
+    return abs(a - b) <= 1e-12 * max(1.0, abs(a), abs(b))
+
+
+def _elem_logpdf(spec, P, xi, i):
+    """Documented log-density of one individual's values xi (n_dim,) given the
+    parameter matrix P (n_per_dim, n_dim)."""
+    k = spec['kind']
+    tot = 0.0
+    for d in range(spec['n_dim']):
+        x = xi[d]
+        if k in ('gauss', 'lognorm') and not spec.get('centered', True):
+            tot = tot - 0.5 * LOG2PI - x ** 2 / 2
+        elif k == 'gauss':
+            mu, s = P[0, d], P[1, d]
+            if np.real(s) < 0:
+                return -np.inf
+            tot = tot - 0.5 * LOG2PI - np.log(s) - (x - mu) ** 2 / (2 * s ** 2)
+        elif k == 'lognorm':
+            mu, s = P[0, d], P[1, d]
+            if np.real(s) < 0 or np.real(x) <= 0:
+                return -np.inf
+            tot = tot - 0.5 * LOG2PI - np.log(s) - np.log(x) - (np.log(x) - mu) ** 2 / (2 * s ** 2)
+        elif k == 'trunc':
+            mu, s = P[0, d], P[1, d]
+            if np.real(s) <= 0 or np.real(x) < 0:
+                return -np.inf
+            tot = tot - 0.5 * LOG2PI - np.log(s) - (x - mu) ** 2 / (2 * s ** 2) \
+                - np.log(1.0 - _phi_cdf(-mu / s))
+        elif k == 'pooled':
+            if not _same(x, P[0, d]):
+                return -np.inf
+        elif k == 'hetero':
+            if not _same(x, P[i, d]):
+                return -np.inf
+    return tot
+
+
+def _elem_indiv(spec, P, xi, i):
+    k = spec['kind']
+    out = []
+    for d in range(spec['n_dim']):
+        if k == 'gauss' and not spec.get('centered', True):
+            out.append(P[0, d] + P[1, d] * xi[d])
+        elif k == 'lognorm' and not spec.get('centered', True):
+            out.append(np.exp(P[0, d] + P[1, d] * xi[d]))
+        elif k == 'pooled':
+            out.append(P[0, d])
+        elif k == 'hetero':
+            out.append(P[i, d])
+        else:
+            out.append(xi[d])
+    return out
+
+
+def _walk(spec, n_ids, theta, x, cov, fn):
+    """Apply fn(elem_spec, P_i, x_i(dims of the elem), i) for every individual and
+    every elementary leaf; returns list over leaves of list over individuals."""
+    k = spec['kind']
+    if k == 'comp':
+        out = []
+        t0 = d0 = c0 = 0
+        for part in spec['parts']:
+            nt, nd, nc = pop_n_par(part, n_ids), pop_n_dim(part), pop_n_cov(part)
+            out += _walk(part, n_ids, theta[t0:t0 + nt], x[:, d0:d0 + nd],
+                         None if cov is None else cov[:, c0:c0 + nc], fn)
+            t0, d0, c0 = t0 + nt, d0 + nd, c0 + nc
+        return out
+    if k == 'red':
+        return _walk(spec['base'], n_ids, _expand_red(spec, theta, n_ids), x, cov, fn)
+    if k == 'cov':
+        res = []
+        for i in range(n_ids):
+            P = _vartheta(spec, theta, n_ids, cov[i])
+            res.append(fn(spec['base'], P, x[i], i))
+        return [res]
+    P = _elem_theta_matrix(spec, theta, n_ids)
+    return [[fn(spec, P, x[i], i) for i in range(n_ids)]]
+
+
+def pop_loglik(spec, n_ids, theta, x, cov=None):
+    """Sum over individuals and dimensions of the documented log-density."""
+    x = np.asarray(x)
+    tot = 0.0
+    for leaf in _walk(spec, n_ids, np.asarray(theta), x, cov, _elem_logpdf):
+        for v in leaf:
+            tot = tot + v
+    return tot
+
+
+def pop_indiv(spec, n_ids, theta, x, cov=None):
+    """psi (n_ids, n_dim) from (theta, eta/psi matrix x)."""
+    x = np.asarray(x)
+    leaves = _walk(spec, n_ids, np.asarray(theta), x, cov, _elem_indiv)
+    rows = []
+    for i in range(n_ids):
+        r = []
+        for leaf in leaves:
+            r += list(leaf[i])
+        rows.append(r)
+    return np.array(rows)
+
+
+def pop_names(spec, n_ids, dim_names, cov_names=None):
+    """Default parameter names (with dimension names) in parameter order."""
+    k = spec['kind']
+    if k in ELEM:
+        if k == 'hetero':
+            base = ['ID %d' % (i + 1) for i in range(n_ids)]
+        else:
+            base = BASE_NAMES[k]
+        return ['%s %s' % (b, dn) for b in base for dn in dim_names]
+    if k == 'cov':
+        base = spec['base']
+        bn = pop_names(base, n_ids, dim_names)
+        nd = base['n_dim']
+        if cov_names is None:
+            cov_names = ['Cov. %d' % (c + 1) for c in range(spec['n_cov'])]
+        out = list(bn)
+        for (p, d) in cov_selection(spec, n_ids):
+            for c in range(spec['n_cov']):
+                out.append('%s %s' % (bn[p * nd + d], cov_names[c]))
+        return out
+    if k == 'red':
+        full = pop_names(spec['base'], n_ids, dim_names, cov_names)
+        return [n for j, n in enumerate(full) if j not in spec['fixed']]
+    out = []
+    d0 = c0 = 0
+    for part in spec['parts']:
+        nd, nc = pop_n_dim(part), pop_n_cov(part)
+        out += pop_names(part, n_ids, dim_names[d0:d0 + nd],
+                         None if cov_names is None else cov_names[c0:c0 + nc])
+        d0, c0 = d0 + nd, c0 + nc
+    return out
+
+
+def hier_layout(spec, n_ids):
+    """(n_bottom, n_top, list of non-special dims)."""
+    special = pop_special(spec)
+    hd = [d for d, s in enumerate(special) if s is None]
+    return n_ids * len(hd), pop_n_par(spec, n_ids), hd
+
+
+def hier_split(spec, n_ids, vec, cov=None):
+    """Hierarchical flat vector -> (x matrix (n_ids, n_dim), theta). Special
+    dimensions of x are filled with the value the population parameters dictate."""
+    nb, nt, hd = hier_layout(spec, n_ids)
+    vec = np.asarray(vec)
+    n_dim = pop_n_dim(spec)
+    theta = vec[nb:nb + nt]
+    x = np.zeros((n_ids, n_dim), dtype=complex if np.iscomplexobj(vec) else float)
+    for i in range(n_ids):
+        for j, d in enumerate(hd):
+            x[i, d] = vec[i * len(hd) + j]
+    if len(hd) < n_dim:
+        psi = pop_indiv(spec, n_ids, theta, x, cov)
+        if np.iscomplexobj(psi) and not np.iscomplexobj(x):
+            x = x.astype(complex)
+        for d in range(n_dim):
+            if d not in hd:
+                x[:, d] = psi[:, d]
+    return x, theta
+
+
+# --------------------------------------------------------------------------
+# builders for chi population models
+# --------------------------------------------------------------------------
+def build_pop(spec, dim_names=None, n_ids=None):
+    import chi
+    k = spec['kind']
+    if k == 'gauss':
+        return chi.GaussianModel(n_dim=spec['n_dim'], dim_names=dim_names, centered=spec.get('centered', True))
+    if k == 'lognorm':
+        return chi.LogNormalModel(n_dim=spec['n_dim'], dim_names=dim_names, centered=spec.get('centered', True))
+    if k == 'trunc':
+        return chi.TruncatedGaussianModel(n_dim=spec['n_dim'], dim_names=dim_names)
+    if k == 'pooled':
+        return chi.PooledModel(n_dim=spec['n_dim'], dim_names=dim_names)
+    if k == 'hetero':
+        if n_ids is None:
+            return chi.HeterogeneousModel(n_dim=spec['n_dim'], dim_names=dim_names)
+        return chi.HeterogeneousModel(n_dim=spec['n_dim'], dim_names=dim_names, n_ids=n_ids)
+    if k == 'cov':
+        base = build_pop(spec['base'], None, n_ids)
+        m = chi.CovariatePopulationModel(
+            base, chi.LinearCovariateModel(n_cov=spec['n_cov']), dim_names=dim_names)
+        if spec.get('sel') is not None:
+            m.set_population_parameters([list(p) for p in spec['sel']])
+        return m
+    if k == 'comp':
+        parts = []
+        d0 = 0
+        for part in spec['parts']:
+            nd = pop_n_dim(part)
+            parts.append(build_pop(part, None if dim_names is None else dim_names[d0:d0 + nd], n_ids))
+            d0 += nd
+        return chi.ComposedPopulationModel(parts)
+    if k == 'red':
+        base = build_pop(spec['base'], dim_names, n_ids)
+        m = chi.ReducedPopulationModel(base)
+        if n_ids is not None:
+            m.set_n_ids(n_ids)
+        names = base.get_parameter_names()
+        m.fix_parameters({names[j]: float(v) for j, v in zip(spec['fixed'], spec['values'])})
+        return m
+    raise ValueError(k)
